@@ -2659,5 +2659,523 @@ theorem ends_removes (q : Quirks) (s : State) (op : Op) (u : Nat) (hu : uidOfBas
   | listVersions b => simp [endsUpload] at hends
   | listBuckets => simp [endsUpload] at hends
 
+theorem delManyLoop_k1 (q : Quirks) (b : String) (keys : List String) (s : State) :
+    (delManyLoop q b s keys).1.nextUid = s.nextUid ∧
+    ∀ n uid, UpIn (delManyLoop q b s keys).1 n uid → UpIn s n uid := by
+  induction keys generalizing s with
+  | nil => exact ⟨rfl, fun _ _ h => h⟩
+  | cons k ks ih =>
+    simp only [delManyLoop]
+    have h1 := step_k1 q s (.del b k none .none) rfl (fun _ _ _ h => by cases h)
+    have h2 := ih (step q s (.del b k none .none)).1
+    exact ⟨h2.1.trans h1.1, fun n uid h => h1.2 n uid (h2.2 n uid h)⟩
+
+/-- No call but CreateMultipartUpload opens an upload or moves the upload-id counter. -/
+theorem xstep_k1 (q : Quirks) (s : State) (op : XOp) (hv : op.namesVersion = false) (hm : isMpu op = false) :
+    (xstep q s op).1.nextUid = s.nextUid ∧ ∀ n uid, UpIn (xstep q s op).1 n uid → UpIn s n uid := by
+  cases op with
+  | base op =>
+    exact step_k1 q s op hv (fun b k o h => by subst h; simp [isMpu] at hm)
+  | partCopy sb sk svid db dk uid n range =>
+    simp only [xstep]
+    cases readSource s sb sk svid with
+    | error e => exact ⟨rfl, fun _ _ h => h⟩
+    | ok r =>
+      dsimp only
+      cases sliceOf r.content range with
+      | error e => exact ⟨rfl, fun _ _ h => h⟩
+      | ok body => exact step_k1 q s (.uploadPart db dk uid n body) rfl (fun _ _ _ h => by cases h)
+  | delMany b keys =>
+    simp only [xstep]
+    cases findBucket s b with
+    | none => exact ⟨rfl, fun _ _ h => h⟩
+    | some bk => exact delManyLoop_k1 q b keys s
+
+theorem xstep_uid_ok (q : Quirks) (s : State) (op : XOp) (u : Nat) (hu : uidOf op = some u)
+    (hok : (xstep q s op).2.isErr = false) : ∃ b, UpIn s b u := by
+  cases op with
+  | base op => exact uid_ok_upIn q s op u hu (by simpa [xstep, isErr_base] using hok)
+  | partCopy sb sk svid db dk uid n range =>
+    simp only [uidOf, Option.some.injEq] at hu; subst hu
+    simp only [xstep] at hok
+    generalize readSource s sb sk svid = x at hok
+    cases x with
+    | error e => simp [XOut.isErr] at hok
+    | ok r =>
+      dsimp only at hok
+      generalize sliceOf r.content range = y at hok
+      cases y with
+      | error e => simp [XOut.isErr] at hok
+      | ok body =>
+        dsimp only at hok
+        exact uid_ok_upIn q s (.uploadPart db dk uid n body) uid rfl (by simpa [isErr_base] using hok)
+  | delMany b keys => simp [uidOf] at hu
+
+theorem xstep_ends (q : Quirks) (s : State) (op : XOp) (u : Nat) (hu : uidOf op = some u)
+    (hends : endsUpload op = true) (hU : UidFunctional s) (hok : (xstep q s op).2.isErr = false) :
+    ∀ n uid, UpIn (xstep q s op).1 n uid → uid ≠ u := by
+  cases op with
+  | base op => exact ends_removes q s op u hu hends hU (by simpa [xstep, isErr_base] using hok)
+  | partCopy sb sk svid db dk uid n range => simp [endsUpload] at hends
+  | delMany b keys => simp [endsUpload] at hends
+
+theorem lookup_filter_ne {α : Type} (l : List (Nat × α)) (u v : Nat) (h : v ≠ u) :
+    (l.filter (·.1 != u)).lookup v = l.lookup v := by
+  induction l with
+  | nil => rfl
+  | cons x xs ih =>
+    obtain ⟨a, b⟩ := x
+    by_cases hau : a = u
+    · subst hau
+      have : (v == a) = false := by simpa using h
+      simp [List.lookup_cons, this, ih]
+    · have hne : (a != u) = true := by simpa using hau
+      simp only [List.filter_cons, hne, if_true, List.lookup_cons, ih]
+
+/-- The full invariant of the replication storage's state: `Inv`, and every open upload of the
+primary has an id below the counter, belongs to one bucket name, and has an id-map entry. -/
+structure Inv2 (rs : RState) : Prop extends Inv rs where
+  ub : ∀ n uid, UpIn rs.primary n uid → uid < rs.primary.nextUid
+  uf : UidFunctional rs.primary
+  um : ∀ n uid, UpIn rs.primary n uid → (rs.umap.lookup uid).isSome = true
+
+
+/-- The upload ids handed to `forwardAll` are the right ones: the lookup found the entry. -/
+theorem fw_key (q : Quirks) {rs : RState} (hi : Inv2 rs) (op : XOp)
+    (hok : (xstep q rs.primary op).2.isErr = false) :
+    ∃ u, (uidOf op = none ∨ uidOf op = some u) ∧
+        (∀ i, i < rs.secs.length → ((usOf rs op).drop i).headD 0 = u) ∧
+        ((uidOf op).isSome = true → rs.secs.length ≤ (usOf rs op).length) := by
+  cases hu : uidOf op with
+  | none => exact ⟨0, Or.inl rfl, by simp [usOf, hu], by simp⟩
+  | some u =>
+    refine ⟨u, Or.inr rfl, ?_⟩
+    obtain ⟨b, hb⟩ := xstep_uid_ok q rs.primary op u hu hok
+    have hsome := hi.um b u hb
+    cases hl : rs.umap.lookup u with
+    | none => rw [hl] at hsome; simp at hsome
+    | some l =>
+      have hl' := hi.ids u l (lookup_mem u _ l hl)
+      subst hl'
+      simp only [usOf, hu, hl, Option.getD_some, List.length_replicate, Nat.le_refl, implies_true, and_true]
+      intro i hi'
+      exact drop_replicate_headD _ _ _ hi'
+
+/-- **The id-map lookup never misses**: every upload the primary accepts a multipart call for has
+an entry (it was recorded when the upload was created and is removed only when the upload is). -/
+theorem no_miss (q : Quirks) {rs : RState} (hi : Inv2 rs) (op : XOp) (hv : op.namesVersion = false) :
+    (rstep q rs op).2.mapMiss = false := by
+  by_cases hc : ((xstep q rs.primary op).2.isErr || !forwarded op) = true
+  · rw [rstep_skip q rs op hc]
+  · have hc' : ((xstep q rs.primary op).2.isErr || !forwarded op) = false := by simpa using hc
+    have hok : (xstep q rs.primary op).2.isErr = false := by
+      cases h : (xstep q rs.primary op).2.isErr <;> simp [h] at hc' ⊢
+    have hrs := rstep_forward q rs op hc'
+    dsimp only at hrs
+    rw [hrs]
+    dsimp only
+    have key := fw_key q hi op hok
+    obtain ⟨u, hu, hus, hlen⟩ := key
+    exact (forwardAll_spec q hi.wf op u hv hu hok (uidOf op).isSome rs.secs (usOf rs op) hi.conv hus hlen).1
+
+
+theorem isMpu_cases (op : XOp) (h : isMpu op = true) : ∃ b k o, op = .base (.mpu b k o) := by
+  cases op with
+  | base op => cases op <;> simp [isMpu] at h; exact ⟨_, _, _, rfl⟩
+  | partCopy sb sk svid db dk uid n range => simp [isMpu] at h
+  | delMany b keys => simp [isMpu] at h
+
+theorem endsUpload_uid (op : XOp) (h : endsUpload op = true) : ∃ u, uidOf op = some u := by
+  cases op with
+  | base op => cases op <;> simp [endsUpload] at h <;> exact ⟨_, rfl⟩
+  | partCopy sb sk svid db dk uid n range => simp [endsUpload] at h
+  | delMany b keys => simp [endsUpload] at h
+
+theorem isMpu_not_ends (op : XOp) (h : isMpu op = true) : endsUpload op = false := by
+  obtain ⟨b, k, o, rfl⟩ := isMpu_cases op h; rfl
+
+/-- `rstep` keeps the full invariant — for every call that names no version id. -/
+theorem rstep_inv2 (q : Quirks) {rs : RState} (hi : Inv2 rs) (op : XOp) (hv : op.namesVersion = false) :
+    Inv2 (rstep q rs op).1 := by
+  have hbase : Inv (rstep q rs op).1 := rstep_inv q hi.toInv op hv (no_miss q hi op hv)
+  obtain ⟨hinv, hub, huf, hum⟩ := hi
+  by_cases hc : ((xstep q rs.primary op).2.isErr || !forwarded op) = true
+  · -- failed on the primary, or a read: the id map is as it was
+    rw [rstep_skip q rs op hc] at hbase ⊢
+    by_cases hmp : isMpu op = true
+    · obtain ⟨b, k, o, rfl⟩ := isMpu_cases op hmp
+      have herr : (xstep q rs.primary (.base (.mpu b k o))).2.isErr = true := by
+        rcases Bool.or_eq_true _ _ |>.mp hc with h | h
+        · exact h
+        · simp [forwarded, forwardedBase] at h
+      have hst : (xstep q rs.primary (.base (.mpu b k o))).1 = tick rs.primary := by
+        rcases step_mpu_k q rs.primary b k o with ⟨_, h⟩ | ⟨h, _⟩
+        · simpa [xstep] using h
+        · simp [xstep, XOut.isErr, h] at herr
+      refine { toInv := hbase, ub := ?_, uf := ?_, um := ?_ } <;> dsimp only <;> rw [hst]
+      · exact hub
+      · exact huf
+      · exact hum
+    · have hk := xstep_k1 q rs.primary op hv (by simpa using hmp)
+      refine { toInv := hbase, ub := ?_, uf := ?_, um := ?_ } <;> dsimp only
+      · intro n uid h; rw [hk.1]; exact hub n uid (hk.2 n uid h)
+      · intro n1 n2 uid h1 h2; exact huf n1 n2 uid (hk.2 _ _ h1) (hk.2 _ _ h2)
+      · intro n uid h; exact hum n uid (hk.2 n uid h)
+  · have hc' : ((xstep q rs.primary op).2.isErr || !forwarded op) = false := by simpa using hc
+    have hok : (xstep q rs.primary op).2.isErr = false := by
+      cases h : (xstep q rs.primary op).2.isErr <;> simp [h] at hc' ⊢
+    have hmiss := no_miss q ⟨hinv, hub, huf, hum⟩ op hv
+    have hrs := rstep_forward q rs op hc'
+    dsimp only at hrs
+    rw [hrs] at hbase hmiss ⊢
+    dsimp only at hbase hmiss ⊢
+    -- the forwarding succeeded everywhere (as in `rstep_inv`)
+    have hkey := fw_key q (rs := rs) ⟨hinv, hub, huf, hum⟩ op hok
+    obtain ⟨u0, hu0, hus, hlen⟩ := hkey
+    obtain ⟨s1, s2, s3, s4, s5⟩ :=
+      forwardAll_spec q hinv.wf op u0 hv hu0 hok (uidOf op).isSome rs.secs (usOf rs op) hinv.conv hus hlen
+    have hfail := find_isErr_none _ _ hok s5
+    simp only [hfail, s1, Option.isNone_none, Bool.not_false, Bool.and_self, Bool.not_true, Bool.false_eq_true,
+      if_false] at hbase ⊢
+    by_cases hmp : isMpu op = true
+    · -- CreateMultipartUpload: the new upload gets its entry
+      obtain ⟨b, k, o, rfl⟩ := isMpu_cases op hmp
+      rcases step_mpu_k q rs.primary b k o with ⟨herr, _⟩ | ⟨hout, hnext, hup⟩
+      · simp [xstep, XOut.isErr] at hok
+        cases hso : (step q rs.primary (.mpu b k o)).2 <;> simp [hso, isErrOut] at herr hok
+      · have hpu : uploadUid (xstep q rs.primary (.base (.mpu b k o))).2 = some rs.primary.nextUid := by
+          simp [xstep, hout, uploadUid]
+        simp only [isMpu, if_true, hpu] at hbase ⊢
+        refine { toInv := hbase, ub := ?_, uf := ?_, um := ?_ } <;> dsimp only
+        · intro n uid h
+          simp only [xstep] at h ⊢
+          rw [hnext]
+          rcases hup n uid h with h' | ⟨_, rfl⟩
+          · exact Nat.lt_succ_of_lt (hub n uid h')
+          · exact Nat.lt_succ_self _
+        · intro n1 n2 uid h1 h2
+          simp only [xstep] at h1 h2
+          rcases hup n1 uid h1 with a1 | ⟨d1, d2⟩ <;> rcases hup n2 uid h2 with a2 | ⟨e2, e3⟩
+          · exact huf n1 n2 uid a1 a2
+          · subst e3; exact absurd (hub n1 _ a1) (Nat.lt_irrefl _)
+          · subst d2; exact absurd (hub n2 _ a2) (Nat.lt_irrefl _)
+          · rw [d1, e2]
+        · intro n uid h
+          simp only [xstep] at h
+          by_cases he : uid = rs.primary.nextUid
+          · subst he; simp
+          · have hne : (uid == rs.primary.nextUid) = false := by simpa using he
+            simp only [List.lookup_cons, hne]
+            rw [lookup_filter_ne _ _ _ he]
+            rcases hup n uid h with h' | ⟨_, h'⟩
+            · exact hum n uid h'
+            · exact absurd h' he
+    · have hmp' : isMpu op = false := by simpa using hmp
+      have hk := xstep_k1 q rs.primary op hv hmp'
+      simp only [hmp', Bool.false_eq_true, if_false] at hbase ⊢
+      by_cases hen : endsUpload op = true
+      · -- Complete / Abort: the entry goes, and so did every upload with that id
+        obtain ⟨u, hu⟩ := endsUpload_uid op hen
+        have hgone := xstep_ends q rs.primary op u hu hen huf hok
+        simp only [hen, if_true, hu] at hbase ⊢
+        refine { toInv := hbase, ub := ?_, uf := ?_, um := ?_ } <;> dsimp only
+        · intro n uid h; rw [hk.1]; exact hub n uid (hk.2 n uid h)
+        · intro n1 n2 uid h1 h2; exact huf n1 n2 uid (hk.2 _ _ h1) (hk.2 _ _ h2)
+        · intro n uid h
+          rw [lookup_filter_ne _ _ _ (hgone n uid h)]
+          exact hum n uid (hk.2 n uid h)
+      · have hen' : endsUpload op = false := by simpa using hen
+        simp only [hen', Bool.false_eq_true, if_false] at hbase ⊢
+        refine { toInv := hbase, ub := ?_, uf := ?_, um := ?_ } <;> dsimp only
+        · intro n uid h; rw [hk.1]; exact hub n uid (hk.2 n uid h)
+        · intro n1 n2 uid h1 h2; exact huf n1 n2 uid (hk.2 _ _ h1) (hk.2 _ _ h2)
+        · intro n uid h; exact hum n uid (hk.2 n uid h)
+
+
+/-- Under the invariant the caller always gets the primary's answer: no secondary fails. -/
+theorem rstep_answer (q : Quirks) {rs : RState} (hi : Inv2 rs) (op : XOp) (hv : op.namesVersion = false) :
+    (rstep q rs op).2.out = (xstep q rs.primary op).2 := by
+  by_cases hc : ((xstep q rs.primary op).2.isErr || !forwarded op) = true
+  · rw [rstep_skip q rs op hc]
+  · have hc' : ((xstep q rs.primary op).2.isErr || !forwarded op) = false := by simpa using hc
+    have hok : (xstep q rs.primary op).2.isErr = false := by
+      cases h : (xstep q rs.primary op).2.isErr <;> simp [h] at hc' ⊢
+    have hrs := rstep_forward q rs op hc'
+    dsimp only at hrs
+    rw [hrs]
+    dsimp only
+    obtain ⟨u, hu, hus, hlen⟩ := fw_key q hi op hok
+    obtain ⟨_, _, _, _, s5⟩ :=
+      forwardAll_spec q hi.wf op u hv hu hok (uidOf op).isSome rs.secs (usOf rs op) hi.conv hus hlen
+    rw [find_isErr_none _ _ hok s5]; rfl
+
+theorem inv2_init (n : Nat) : Inv2 (init n) :=
+  { toInv := inv_init n
+    ub := by rintro nm uid ⟨bk, hbk, _⟩; simp [init] at hbk
+    uf := by rintro n1 n2 uid ⟨bk, hbk, _⟩; simp [init] at hbk
+    um := by rintro nm uid ⟨bk, hbk, _⟩; simp [init] at hbk }
+
+theorem rrun_inv2 (q : Quirks) (ops : List XOp) {rs : RState} (hi : Inv2 rs)
+    (hv : ∀ op ∈ ops, op.namesVersion = false) : Inv2 (rrun q rs ops).1 := by
+  induction ops generalizing rs with
+  | nil => exact hi
+  | cons op ops ih =>
+    simp only [rrun]
+    exact ih (rstep_inv2 q hi op (hv op (List.mem_cons_self ..))) (fun o ho => hv o (List.mem_cons_of_mem _ ho))
+
+theorem rrun_no_miss (q : Quirks) (ops : List XOp) {rs : RState} (hi : Inv2 rs)
+    (hv : ∀ op ∈ ops, op.namesVersion = false) : ∀ o ∈ (rrun q rs ops).2, o.mapMiss = false := by
+  induction ops generalizing rs with
+  | nil => intro o ho; simp [rrun] at ho
+  | cons op ops ih =>
+    intro o ho
+    simp only [rrun, List.mem_cons] at ho
+    rcases ho with rfl | ho
+    · exact no_miss q hi op (hv op (List.mem_cons_self ..))
+    · exact ih (rstep_inv2 q hi op (hv op (List.mem_cons_self ..))) (fun o ho => hv o (List.mem_cons_of_mem _ ho)) o ho
+
+-- ---------------------------------------------------------------- bucket names (used by C24)
+
+/-! Bucket names: only CreateBucket adds one, only DeleteBucket removes one. -/
+
+def names (s : State) : List String := s.buckets.map (·.name)
+
+theorem names_setBucket (s : State) (X : Bucket) : names (setBucket s X) = names s := by
+  simp only [names, setBucket, List.map_map]
+  apply List.map_congr_left
+  intro x _
+  simp only [Function.comp]
+  by_cases h : x.name = X.name <;> simp [h]
+
+/-- "The bucket names are those of `s`." -/
+def NF (s : State) (x : State × Out) : Prop := names x.1 = names s
+
+theorem NF.same (s : State) (o : Out) : NF s (s, o) := rfl
+theorem NF.ite {s : State} {c : Bool} {a b : State × Out} (ha : NF s a) (hb : NF s b) :
+    NF s (if c = true then a else b) := by cases c <;> simpa
+
+theorem NF.of_buckets {s : State} {x : State × Out} (X : Bucket) (h : x.1.buckets = (setBucket s X).buckets) : NF s x := by
+  unfold NF names; rw [h]; exact names_setBucket s X
+
+theorem NF.of_rp {s : State} {name : String} {L : List Nat} {x : State × Out} (h : RP s name L x) : NF s x := by
+  obtain ⟨_, hb | ⟨X, hb, _, _⟩⟩ := h
+  · unfold NF names; rw [hb]
+  · exact NF.of_buckets X hb
+
+theorem NF.withB {s : State} (b : String) {f : Bucket → State × Out}
+    (hf : ∀ bk ∈ s.buckets, bk.name = b → NF s (f bk)) : NF s (Replication.withB s b f) :=
+  withB_rp b (NF.same s _) hf
+
+theorem NF.unpack {s : State} {bk : Bucket} (f : Option Nat → Out) (x : Except Err (State × Option Nat))
+    (hx : ∀ r, x = .ok r → ∀ o, RP s bk.name (uids bk) (r.1, o)) : NF s (Replication.unpack s f x) :=
+  NF.of_rp (unpack_rp f x hx)
+
+theorem NF.res {s : State} (f : Row → State × Out) (hf : ∀ r, NF s (f r)) (x : Except Err Row) :
+    NF s (match x with | .error e => (s, Out.err e) | .ok r => f r) := by
+  cases x with
+  | error e => exact NF.same s _
+  | ok r => exact hf r
+
+theorem delNone_nf (q : Quirks) (s : State) (bk : Bucket) (k : String) (im : IfMatch) : NF s (delNone q s bk k im) := by
+  unfold delNone
+  refine NF.ite (NF.ite (NF.same s _) (NF.same s _)) (NF.ite (NF.same s _) (NF.ite ?_ ?_))
+  · exact NF.of_buckets _ rfl
+  · cases latestRow bk k with
+    | none => exact NF.same s _
+    | some r => exact NF.of_buckets _ rfl
+
+theorem appendOn_nf (q : Quirks) (s : State) (bk : Bucket) (k : String) (body : Bytes) (off : Option Nat) :
+    NF s (appendOn q s bk k body off) := by
+  unfold appendOn appendBody
+  refine NF.ite (NF.same s _) ?_
+  cases latestRow bk k with
+  | none =>
+    dsimp only
+    cases hq : q.appendLatestInPlace <;>
+      simp only [Bool.false_eq_true, if_false, if_true] <;>
+      repeat' (first
+        | exact NF.same s _
+        | exact NF.unpack _ _ (fun r hr o => putRow_rp q s bk k _ _ _ r hr o)
+        | exact NF.of_buckets _ rfl
+        | apply NF.ite)
+  | some a =>
+    cases a with
+    | mk rowId key vid dm latest created updated wrote parts etag ct md tags cls seqBase =>
+    cases dm <;> cases hq : q.appendLatestInPlace <;> cases vid <;>
+      simp only [Bool.false_eq_true, if_false, if_true, Option.isNone_none, Option.isNone_some] <;>
+      repeat' (first
+        | exact NF.same s _
+        | exact NF.unpack _ _ (fun r hr o => putRow_rp q s bk k _ _ _ r hr o)
+        | exact NF.of_buckets _ rfl
+        | apply NF.ite)
+
+/-- Every call but CreateBucket / DeleteBucket (and not naming a version id) leaves the bucket
+names as they were. -/
+theorem deleteOp_nf (q : Quirks) (s : State) (bk : Bucket) (k : String) (vid : Option (Option Nat)) (im : IfMatch) :
+    NF s (deleteOp q s bk k vid im) := by
+  cases vid with
+  | none => rw [deleteOp_none_eq]; exact delNone_nf q s bk k im
+  | some v =>
+    unfold deleteOp
+    dsimp only
+    repeat' split
+    all_goals first
+      | exact NF.same s _
+      | exact NF.of_buckets _ rfl
+
+theorem step_names (q : Quirks) (s : State) (op : Op)
+    (hmk : ∀ b, op ≠ .mkb b) (hrm : ∀ b, op ≠ .rmb b) : names (step q s op).1 = names s := by
+  have key : NF (tick s) (step q s op) := by
+    cases op with
+    | mkb b => exact absurd rfl (hmk b)
+    | rmb b => exact absurd rfl (hrm b)
+    | setVer b v =>
+      rw [step_setVer_eq]; exact NF.withB b fun bk _ _ => NF.of_buckets { bk with ver := v } rfl
+    | put b k body o inm im =>
+      rw [step_put_eq]
+      exact NF.withB b fun bk _ _ => NF.unpack _ _ (fun r hr o => putRow_rp q _ bk k _ _ _ r hr o)
+    | get b k vid =>
+      rw [step_get_eq]; exact NF.withB b fun bk _ _ => by cases resolve bk k vid <;> exact NF.same _ _
+    | head b k vid =>
+      rw [step_head_eq]; exact NF.withB b fun bk _ _ => by cases resolve bk k vid <;> exact NF.same _ _
+    | del b k vid im =>
+      rw [step_del_eq]
+      exact NF.withB b fun bk _ _ => deleteOp_nf q _ bk k vid im
+    | copy sb sk svid db dk rm rt o =>
+      rw [step_copy_eq]
+      cases findBucket (tick s) sb with
+      | none => exact NF.same _ _
+      | some sbk =>
+        dsimp only
+        cases resolve sbk sk svid with
+        | error e => exact NF.same _ _
+        | ok src =>
+          exact NF.withB db fun bk _ _ => NF.unpack _ _ (fun r hr o => putRow_rp q _ bk dk _ _ _ r hr o)
+    | append b k body off =>
+      rw [step_append_eq]; exact NF.withB b fun bk _ _ => appendOn_nf q _ bk k body off
+    | mpu b k o =>
+      rw [step_mpu_eq]
+      exact NF.withB b fun bk _ _ => NF.of_buckets { bk with uploads := bk.uploads ++
+        [{ uid := (tick s).nextUid, key := k, created := (tick s).clock, ct := o.ct, md := o.md, tags := o.tags, cls := o.cls }] } rfl
+    | uploadPart b k uid n body =>
+      rw [step_uploadPart_eq]
+      refine NF.withB b fun bk _ _ => ?_
+      cases hfu : bk.uploads.find? (fun u => u.uid == uid && u.key == k) with
+      | none => exact NF.same _ _
+      | some u => exact NF.of_rp (uploadPart_rp2 _ bk uid k n body u hfu _).rp
+    | complete b k uid declared inm im =>
+      rw [step_complete_eq]
+      refine NF.withB b fun bk _ _ => ?_
+      cases bk.uploads.find? (fun u => u.uid == uid && u.key == k) with
+      | none => exact NF.same _ _
+      | some u =>
+        dsimp only
+        refine NF.ite (NF.same _ _) ?_
+        cases declaredErr u declared with
+        | some e => exact NF.same _ _
+        | none =>
+          exact NF.unpack (bk := { bk with uploads := bk.uploads.filter (·.uid != uid) }) _ _
+            (fun r hr o => putRow_rp q _ _ k _ _ _ r hr o)
+    | abort b k uid =>
+      rw [step_abort_eq]
+      refine NF.withB b fun bk _ _ => ?_
+      cases bk.uploads.find? (fun u => u.uid == uid && u.key == k) with
+      | none => exact NF.same _ _
+      | some u => exact NF.of_buckets { bk with uploads := bk.uploads.filter (·.uid != uid) } rfl
+    | getTags b k vid =>
+      rw [step_getTags_eq]; exact NF.withB b fun bk _ _ => by cases resolve bk k vid <;> exact NF.same _ _
+    | putTags b k vid tags =>
+      rw [step_putTags_eq]; exact NF.withB b fun bk _ _ => NF.res _ (fun r => NF.of_buckets _ rfl) _
+    | delTags b k vid =>
+      rw [step_delTags_eq]; exact NF.withB b fun bk _ _ => NF.res _ (fun r => NF.of_buckets _ rfl) _
+    | transition b k cls vid =>
+      rw [step_transition_eq]
+      refine NF.withB b fun bk _ _ => ?_
+      cases vid with
+      | none =>
+        dsimp only
+        cases latestRow bk k with
+        | none => exact NF.same _ _
+        | some r => exact NF.ite (NF.same _ _) (NF.of_buckets _ rfl)
+      | some v =>
+        dsimp only
+        cases rowByVid bk k v with
+        | none => exact NF.same _ _
+        | some r => exact NF.ite (NF.same _ _) (NF.of_buckets _ rfl)
+    | list b => rw [step_list_eq]; exact NF.withB b fun bk _ _ => NF.same _ _
+    | listVersions b => rw [step_listVersions_eq]; exact NF.withB b fun bk _ _ => NF.same _ _
+    | listBuckets => exact NF.same _ _
+  exact key
+
+theorem step_mkb_names (q : Quirks) (s : State) (b : String) :
+    names (step q s (.mkb b)).1 = names s ∨ (b ∉ names s ∧ names (step q s (.mkb b)).1 = names s ++ [b]) := by
+  rw [step_mkb_eq]
+  cases h : (findBucket (tick s) b).isSome
+  · right
+    simp only [Bool.false_eq_true, if_false]
+    refine ⟨?_, by simp [names, tick]⟩
+    intro hmem
+    simp only [names, List.mem_map] at hmem
+    obtain ⟨bk, hbk, hn⟩ := hmem
+    have : (findBucket (tick s) b).isSome = true := by
+      simp only [findBucket, List.find?_isSome]
+      exact ⟨bk, hbk, by simp [hn]⟩
+    rw [h] at this; cases this
+  · left; simp [names, tick]
+
+theorem step_rmb_names (q : Quirks) (s : State) (b : String) :
+    (names (step q s (.rmb b)).1).Sublist (names s) := by
+  rw [step_rmb_eq]
+  unfold Replication.withB
+  cases findBucket (tick s) b with
+  | none => exact List.Sublist.refl _
+  | some bk =>
+    dsimp only
+    split
+    · exact List.Sublist.refl _
+    · exact List.Sublist.map _ List.filter_sublist
+
+theorem delManyLoop_names (q : Quirks) (b : String) (keys : List String) (s : State) :
+    names (delManyLoop q b s keys).1 = names s := by
+  induction keys generalizing s with
+  | nil => rfl
+  | cons k ks ih =>
+    simp only [delManyLoop]
+    rw [ih, step_names q s _ (fun _ h => by cases h) (fun _ h => by cases h)]
+
+/-- The bucket names after any call: unchanged, or `b` appended by a CreateBucket of an absent `b`,
+or a sublist after DeleteBucket. -/
+theorem xstep_names (q : Quirks) (s : State) (op : XOp) :
+    names (xstep q s op).1 = names s ∨
+    (∃ b, op = .base (.mkb b) ∧ b ∉ names s ∧ names (xstep q s op).1 = names s ++ [b]) ∨
+    (∃ b, op = .base (.rmb b) ∧ (names (xstep q s op).1).Sublist (names s)) := by
+  cases op with
+  | base op =>
+    by_cases hmk : ∃ b, op = .mkb b
+    · obtain ⟨b, rfl⟩ := hmk
+      rcases step_mkb_names q s b with h | ⟨h1, h2⟩
+      · exact Or.inl h
+      · exact Or.inr (Or.inl ⟨b, rfl, h1, h2⟩)
+    · by_cases hrm : ∃ b, op = .rmb b
+      · obtain ⟨b, rfl⟩ := hrm
+        exact Or.inr (Or.inr ⟨b, rfl, step_rmb_names q s b⟩)
+      · exact Or.inl (step_names q s op (fun b h => hmk ⟨b, h⟩) (fun b h => hrm ⟨b, h⟩))
+  | partCopy sb sk svid db dk uid n range =>
+    left
+    simp only [xstep]
+    cases readSource s sb sk svid with
+    | error e => rfl
+    | ok r =>
+      dsimp only
+      cases sliceOf r.content range with
+      | error e => rfl
+      | ok body => exact step_names q s _ (fun _ h => by cases h) (fun _ h => by cases h)
+  | delMany b keys =>
+    left
+    simp only [xstep]
+    cases findBucket s b with
+    | none => rfl
+    | some bk => exact delManyLoop_names q b keys s
+
 end Pithos.Replication
 
